@@ -38,6 +38,7 @@ class LoopSpec:
     modifies: list = field(default_factory=list)      # extra heap keys / locals havocked
     decreases: str | None = None
     ghost_pre: list = field(default_factory=list)
+    unfold: list = field(default_factory=list)      # parameterised definitions instantiated at the loop index
 
 
 @dataclass
@@ -66,6 +67,7 @@ class Contract:
     unknown_may_raise: bool = False             # calls of unknown callables may raise 'Exception'
     hints: list = field(default_factory=list)   # proved-then-assumed lemmas at function entry (ghost)
     ranks: dict = field(default_factory=dict)   # tensor expression -> rank: its shape list is canonical on entry
+    definitions: list = field(default_factory=list)  # definitional axioms of ghost functions (assumed; recorded)
 
 
 REGISTRY: dict[str, Contract] = {}
@@ -91,7 +93,7 @@ def _clauses(items, props=()):
 def contract(key, *, props=(), params=None, closure=None, result=None, requires=(), ensures=(),
              raises=(), may_raise=(), modifies=(), loops=None, mode='contract', self_cls=None,
              lets=None, trusted=False, note='', float_mode='R', covers=(), locals=None, exsures=(),
-             unknown_may_raise=False, hints=(), ranks=None):
+             unknown_may_raise=False, hints=(), ranks=None, definitions=()):
     props = tuple(props)
     lp = {}
     for k, v in (loops or {}).items():
@@ -101,7 +103,7 @@ def contract(key, *, props=(), params=None, closure=None, result=None, requires=
             lp[str(k)] = LoopSpec(
                 invariants=_clauses(v.get('invariants', []), props),
                 index=v.get('index'), modifies=list(v.get('modifies', [])),
-                decreases=v.get('decreases'),
+                decreases=v.get('decreases'), unfold=list(v.get('unfold', [])),
             )
     c = Contract(
         key=key, props=props, params=dict(params or {}), closure=dict(closure or {}),
@@ -112,6 +114,7 @@ def contract(key, *, props=(), params=None, closure=None, result=None, requires=
         float_mode=float_mode, covers=_clauses(covers, props), locals=dict(locals or {}),
         exsures=[(e, Clause(f'exsures:{e}:{l}', t, props)) for e, l, t in exsures],
         unknown_may_raise=unknown_may_raise, hints=_clauses(hints, props), ranks=dict(ranks or {}),
+        definitions=_clauses(definitions, props),
     )
     REGISTRY[key] = c
     return c
